@@ -391,7 +391,10 @@ func (vm *Type) Run(retResult bool) (value.Type, error) {
 			nip := m.IP()
 			if nip == nil {
 				m.ResetSP()
-				m.Push(val)
+				if retResult {
+					// otherwise the code that drops the statement's value is jumped over
+					m.Push(val)
+				}
 				ip = len(*cs) - 1
 				break
 			}
